@@ -1,6 +1,6 @@
 (* C09 Fee exactness: configured rate at entry, half-up rounding, pro-rata thereafter. *)
 From ATS Require Import Prelude Dec DecFacts Uuid Semver Types Contract Tactics Spec Inv InvAsk InstProofs AskProofs
-  BidFacts DivFacts ProRata InvBid InvStep ExitProofs Ledger MatchProofs Witness.
+  BidFacts DivFacts ProRata InvBid InvStep ExitProofs Ledger MatchProofs Witness Known.
 
 (* (i)+(ii) both fees are rate_fee rate amount = round_half_away_from_zero(rate*amount) in the contract's decimal
    arithmetic: the bid fee demanded at creation (create_bid_inv: fee = calc, in the quote denomination, or no fee
@@ -160,3 +160,39 @@ Example C09_witness :
   | _ => (0, 0, Refused 0)
   end = (150, 15, Ok 15).
 Proof. vm_compute. reflexivity. Qed.
+
+(* Inside K_rate the "rounded half away from zero" clause is FALSE of the code (recorded finding,
+   corpus/known/k_rate_double_rounding.hist): the contract admits the bid with a fee of 96 and refuses it with 95, while
+   rate * total = 95.49999999999999999999999999 rounds to 95. *)
+Theorem C09_refuted_in_K_rate :
+  exists e st sender id m total,
+    Inv st /\
+    match st_cfg st with Some c => option_map f_rate (cf_bid_fee c) | None => None end = Some "0.0954045954045954045954045954" /\
+    dec_parse "0.0954045954045954045954045954" = Some (mkdec false m 28) /\
+    is_ok (execute FX e st sender [mkcoin (total + 96) "q"] (CreateBid id "base" (Some (mkcoin 96 "q")) "1" "q" total total)) = true /\
+    is_ok (execute FX e st sender [mkcoin (total + 95) "q"] (CreateBid id "base" (Some (mkcoin 95 "q")) "1" "q" total total)) = false /\
+    2 * (m * total) < (2 * 95 + 1) * 10 ^ 28 /\ (2 * 95 - 1) * 10 ^ 28 <= 2 * (m * total).
+Proof.
+  exists k_env, (k_start k_rate_inst), "buyer", kB, 954045954045954045954045954, 1001.
+  split; [apply k_start_inv; vm_compute; reflexivity|]. split; [vm_compute; reflexivity|]. split; [vm_compute; reflexivity|].
+  exact k_rate_witness.
+Qed.
+Print Assumptions C09_refuted_in_K_rate.
+
+(* Inside K_prorata the "to the nearest unit" clause is FALSE of the code (recorded finding,
+   corpus/known/k_prorata_snap.hist): a reachable state in which a bid holds 9747718733245 of its fee while the exact
+   share fee * unspent / quote lies strictly below 9747718733244 1/2. *)
+Theorem C09_refuted_in_K_prorata :
+  exists st k b f,
+    Inv st /\ lookup k (st_bids st) = Some (SlotV3 b) /\ b_fee b = Some f /\
+    2 * (c_amt f * unspent b) < (2 * (held b - 1) + 1) * c_amt (b_quote b) /\
+    20 * c_amt (b_quote b) * c_amt f > 10 ^ 28.
+Proof.
+  exists (run (k_start k_prorata_inst) k_prorata_hist), kB.
+  destruct (lookup kB (st_bids (run (k_start k_prorata_inst) k_prorata_hist))) as [[b|o]|] eqn:E;
+    [|vm_compute in E; discriminate|vm_compute in E; discriminate].
+  exists b. destruct (b_fee b) as [f|] eqn:Ef; [|vm_compute in E; injection E as <-; vm_compute in Ef; discriminate].
+  exists f. split; [exact k_prorata_inv|]. split; [reflexivity|]. split; [reflexivity|].
+  vm_compute in E. injection E as <-. vm_compute in Ef. injection Ef as <-. vm_compute. split; reflexivity.
+Qed.
+Print Assumptions C09_refuted_in_K_prorata.
